@@ -32,8 +32,9 @@ m("C03","readuint32-via-read","encoding/wkbcommon/binary.go","	var buf [4]byte\n
 m("C03","fixed-byte-order","encoding/wkb/wkb.go","		flatCoords, err := wkbcommon.ReadFlatCoords1(r, byteOrder, layout.Stride())","		flatCoords, err := wkbcommon.ReadFlatCoords1(r, NDR, layout.Stride())","byte-order-threaded/encoding/wkb.Read")
 m("C03","scan-no-type-check","encoding/ewkb/sql.go","	p1, ok := got.(*geom.Point)\n	if !ok {\n		return wkbcommon.ErrUnexpectedType{Got: p1, Want: p}\n	}\n	p.Point = p1","	p1, _ := got.(*geom.Point)\n	p.Point = p1","sql-wrappers/(*encoding/ewkb.Point).Scan")
 # ---- C04
+m("C04","revert-count-fits-int","encoding/wkbcommon/wkbcommon.go","	if maxN := math.MaxInt / 8 / max(stride, 1); uint64(n) > uint64(maxN) {\n		return nil, ErrGeometryTooLarge{Level: 1, N: int(n), Limit: maxN}\n	}\n","	_ = math.MaxInt\n","size-arithmetic-fits-int/encoding/wkbcommon.ReadFlatCoords1")
 m("C04","no-limit-rings","encoding/wkbcommon/wkbcommon.go","	if limit := MaxGeometryElements[2]; limit >= 0 && uint64(n) > uint64(limit) {\n		return nil, nil, ErrGeometryTooLarge{Level: 2, N: int(n), Limit: limit}\n	}\n","","count-guard/encoding/wkbcommon.ReadFlatCoords2")
-m("C04","make-before-limit","encoding/wkbcommon/wkbcommon.go","	if limit := MaxGeometryElements[1]; limit >= 0 && uint64(n) > uint64(limit) {\n		return nil, ErrGeometryTooLarge{Level: 1, N: int(n), Limit: limit}\n	}\n	flatCoords := make([]float64, int(n)*stride)","	flatCoords := make([]float64, int(n)*stride)\n	if limit := MaxGeometryElements[1]; limit >= 0 && uint64(n) > uint64(limit) {\n		return nil, ErrGeometryTooLarge{Level: 1, N: int(n), Limit: limit}\n	}","count-guard/encoding/wkbcommon.ReadFlatCoords1")
+m("C04","make-before-limit","encoding/wkbcommon/wkbcommon.go","	if limit := MaxGeometryElements[1]; limit >= 0 && uint64(n) > uint64(limit) {\n		return nil, ErrGeometryTooLarge{Level: 1, N: int(n), Limit: limit}\n	}\n	// The array holds","	scratch := make([]float64, int(n)*stride)\n	_ = scratch\n	if limit := MaxGeometryElements[1]; limit >= 0 && uint64(n) > uint64(limit) {\n		return nil, ErrGeometryTooLarge{Level: 1, N: int(n), Limit: limit}\n	}\n	// The array holds","count-guard/encoding/wkbcommon.ReadFlatCoords1")
 m("C04","wrong-level-rings","encoding/wkbcommon/wkbcommon.go","	if limit := MaxGeometryElements[2]; limit >= 0 && uint64(n) > uint64(limit) {\n		return nil, nil, ErrGeometryTooLarge{Level: 2,","	if limit := MaxGeometryElements[1]; limit >= 0 && uint64(n) > uint64(limit) {\n		return nil, nil, ErrGeometryTooLarge{Level: 1,","count-guard/encoding/wkbcommon.ReadFlatCoords2")
 m("C04","revert-wkb-collection-limit","encoding/wkb/wkb.go","		if limit := wkbcommon.MaxGeometryElements[1]; limit >= 0 && uint64(n) > uint64(limit) {\n			return nil, wkbcommon.ErrGeometryTooLarge{Level: 1, N: int(n), Limit: limit}\n		}\n		gc := geom.NewGeometryCollection()\n","		gc := geom.NewGeometryCollection()\n","count-guard/encoding/wkb.Read")
 m("C04","revert-count-compared-as-int","encoding/wkbcommon/wkbcommon.go","	if limit := MaxGeometryElements[1]; limit >= 0 && uint64(n) > uint64(limit) {","	if limit := MaxGeometryElements[1]; limit >= 0 && int(n) > limit {","count-guard/encoding/wkbcommon.ReadFlatCoords1")
@@ -161,7 +162,7 @@ def main():
     root = "/verif/mutants"
     import glob
     for f in glob.glob(root + "/*/*"):
-        if not os.path.basename(f).startswith(("seed-", "neutral-", "neutral2-", "neutral3-", "neutral4-")):
+        if not os.path.basename(f).startswith(("seed-", "neutral")):
             os.remove(f)
     scratch = tempfile.mkdtemp(prefix="mkmut.")
     try:
